@@ -375,6 +375,25 @@ func runCfgCase(t *testing.T, r *ev.Run, nc nodeCase) {
 	c := nc.Cfg
 	var obs actionObs
 	res := runNode(t, startSpec{Env: c.settings(t)}, func(sys *core.System, base string) { obs = actions(c, sys, base) })
+	// "accepted with strict mode off" is the one direction in which a transient start-up failure of the sandbox (a port, NATS or
+	// SQLite hiccup on a loaded machine) would look like a violation: such a verdict has to reproduce twice more before it is believed.
+	failsNonStrict := func(res startResult, obs actionObs) bool {
+		if c.Strict {
+			return false
+		}
+		if !res.Started {
+			return c.plain()
+		}
+		return (strings.Contains(c.Validators, "dummy") && obs.DummyFlow != "ok") || obs.LDUnlisted == "refused" || obs.IAMPlain == "refused"
+	}
+	for retry := 0; retry < 2 && failsNonStrict(res, obs); retry++ {
+		var obs2 actionObs
+		res2 := runNode(t, startSpec{Env: c.settings(t)}, func(sys *core.System, base string) { obs2 = actions(c, sys, base) })
+		if !failsNonStrict(res2, obs2) || refusalClass(res2.Refusal) != refusalClass(res.Refusal) {
+			r.AssumptionCheck("start-up verdicts are reproducible", false, fmt.Sprintf("%s: first run %q / %+v, repeat %q", ev.Key(c), res.Refusal, obs, res2.Refusal))
+			res, obs = res2, obs2
+		}
+	}
 	r.Eval(nc.Kind + ev.Key(c))
 	ins := c.insecureStart()
 	sort.Strings(ins)
@@ -394,11 +413,11 @@ func runCfgCase(t *testing.T, r *ev.Run, nc nodeCase) {
 	case c.Strict && len(ins) > 0 && res.Started:
 		r.Violation("C20|node|strict-started|"+sig, fmt.Sprintf("strict mode on, configuration is insecure (%s) but the node started: %s", sig, ev.Key(c)), nc)
 	case c.Strict && len(ins) == 0 && !res.Started && c.Crypto != "vaultkv":
-		r.Observation("secure configuration refused in strict mode: "+refusalClass(res.Refusal), map[string]any{"cfg": c, "refusal": res.Refusal})
+		r.Observation("secure configuration refused in strict mode: "+refusalClass(res.Refusal), "url class "+urlClass(c.URL))
 	case !c.Strict && !res.Started && c.plain():
 		r.Violation("C20|node|nonstrict-refused|"+sig, fmt.Sprintf("strict mode off, plain settings (%s) but the node refused to start (%s): %s", sig, res.Refusal, ev.Key(c)), nc)
 	case !c.Strict && !res.Started:
-		r.Observation("non-plain configuration refused with strict mode off: "+refusalClass(res.Refusal), map[string]any{"cfg": c, "refusal": res.Refusal})
+		r.Observation("non-plain configuration refused with strict mode off: "+refusalClass(res.Refusal), nil)
 	}
 	if !res.Started {
 		return
@@ -407,7 +426,7 @@ func runCfgCase(t *testing.T, r *ev.Run, nc nodeCase) {
 		r.Violation("C20|node|tls-off|grpc-listening", "strict mode on, no TLS certificate configured, yet the gRPC network address accepts connections: "+ev.Key(c), nc)
 	}
 	if c.TLS == "disabled" && !c.hasMethod("nuts") && c.Strict {
-		r.Observation("strict mode, no TLS files, did:nuts disabled: node starts without a gRPC network (port closed)", c)
+		r.Observation("strict mode, no TLS files, did:nuts disabled: node starts without a gRPC network (port closed)", nil)
 	}
 	// ---- clauses judged at the action
 	if strings.Contains(c.Validators, "dummy") {
